@@ -185,6 +185,11 @@ def run_path(repo, registry, func: VFunc, contract, prefix, feas_ms):
         if "requires" in contract.funcs:
             pre = it.truthy(it.eval_contract_fn(contract, "requires", dict(bound)))
             path.assume(pre)
+        for dn in sorted(n for n in contract.funcs if n.startswith("define_")):
+            # definition of a ghost symbol that occurs nowhere else (a conservative extension):
+            # lets an inner formula be named and used atomically by the outer invariants
+            path.assume(it.truthy(it.eval_contract_fn(contract, dn, dict(bound))))
+            path.dropped.add(f"definitional axiom {contract.target}.{dn} (names a formula by a fresh ghost predicate)")
         # snapshot again: requires may have materialised lazily created fields
         for a, c in path.heap.items():
             if a not in fr.entry_heap:
